@@ -48,6 +48,16 @@ type PG struct{ rbase }  // 12 Mark()
 type PO struct{ rbase }  // 13 RI, Mark() int
 type PDM struct{ rbase } // 14 RI Primary Mark()
 
+// field-less components: every zero-size allocation has the same address in Go
+type PZ1 struct{} // 15 RI
+type PZ2 struct{} // 16 RI Mark()
+
+func (*PZ1) RIm()  {}
+func (*PZ2) RIm()  {}
+func (*PZ2) Mark() {}
+
+var zeroPID = map[string]int{} // type name -> provider index of the current scenario
+
 func (*PB) RIm()                 {}
 func (*PC) RIm()                 {}
 func (p *PC) Qualifier() string  { return p.qual }
@@ -136,6 +146,12 @@ func mkProv(ty, id int, name, qual string) any {
 		return &PO{b}
 	case 14:
 		return &PDM{b}
+	case 15:
+		zeroPID["PZ1"] = id
+		return &PZ1{}
+	case 16:
+		zeroPID["PZ2"] = id
+		return &PZ2{}
 	}
 	panic("unknown pool type")
 }
@@ -348,6 +364,12 @@ func runResolve(sc *RScenario) []map[string]any {
 }
 
 func pidOf(x any) int {
+	switch x.(type) {
+	case *PZ1:
+		return zeroPID["PZ1"]
+	case *PZ2:
+		return zeroPID["PZ2"]
+	}
 	if p, ok := x.(pider); ok {
 		return p.PID()
 	}
